@@ -349,4 +349,5 @@ Definition default_cores (t : topology) (use : bool) (pm : nat -> bool) : nat :=
                              (seq 0 (ncores t)))
   else ncores t.
 
-Definition wf_topo (t : topology) : Prop := t <> [] /\ Forall (fun s => s <> [] /\ Forall (fun c => 1 <= c) s) t.
+(* every core has at least one PU (hwloc never reports an empty core) *)
+Definition wf_topo (t : topology) : Prop := Forall (fun c => 1 <= c) (cores t).
